@@ -42,7 +42,7 @@ CFG = {
     "long_every": 6,
 }
 PROBES = ["verify", "verify_sf", "verify_dh", "verify_dh_co", "verify_dh_ro", "verify_pl", "diff", "info", "info_sf", "hash", "xsd", "xsd_df",
-          "flatten", "flatten", "flatten_nohist", "create", "create", "create_sf", "create_n", "create_dr", "create_i", "create_sub", "create_i_path", "create_i_path", "create_dr_i_path", "create_dr_i_path"]
+          "flatten", "flatten", "flatten_nohist", "create", "create", "create_sf", "create_n", "create_dr", "create_i", "create_sub", "create_i_path", "create_i_path", "create_dr_i_path", "create_dr_i_path", "create_ii_blank_line", "create_sf_v"]
 
 
 @st.composite
@@ -77,6 +77,16 @@ def enumerated(tier):
     yield {"root": "long", "tree": {"a.mov": "a", "kid": {"b.mov": "b"}}, "spell": "abs", "damage": None, "frozen": "2021-05-05 10:00:00",
            "steps": [{"op": "create", "root": "kid", "formats": ["md5"], "flags": []}] + [{"op": "create", "root": "", "formats": ["md5"], "flags": []} for _ in range(11)],
            "probes": [["create", 0], ["create_n", 1], ["create", 2], ["create_sf", 3], ["create", 4], ["verify", 5]]}
+
+
+    # verbose single-file runs and pattern files with blank-only lines, each followed by further creates; a root folder
+    # with a per cent sign in its name
+    for root in ("100% done", "plain"):
+        yield {"root": root, "tree": {"a.mov": "a", "x.tmp": "t", "kid %d": {"b.mov": "b"}}, "spell": "abs", "damage": None,
+               "steps": [{"op": "create", "root": "kid %d", "formats": ["md5"], "flags": []}],
+               "probes": [["create_sf_v", 0], ["create_ii_blank_line", 1], ["create", 2], ["create_sf_v", 3], ["create_sf", 4], ["create_n", 5], ["verify", 6], ["info", 7]]}
+        yield {"root": root, "tree": {"a.mov": "a", "x.tmp": "t"}, "spell": "abs", "damage": None, "steps": [],
+               "probes": [["create_sf_v", 0], ["create_ii_blank_line", 1], ["create_sf", 2], ["create", 3]]}
 
 
 def strategy(tier):
@@ -263,6 +273,21 @@ def run_case(scn, ctx):
                     base += ["-dr"]
                 elif probe == "create_i":
                     base += ["-i", "*.tmp", "-i", "zzz"]
+                elif probe == "create_ii_blank_line":
+                    # a pattern file with a line that holds blanks only (what the following runs make of it shows later)
+                    os.makedirs(w.abs("_ii"), exist_ok=True)
+                    with open(w.abs("_ii/blank line.txt"), "w") as fh:
+                        fh.write("*.tmp\n   \nzzz\n\t\n")
+                    base += ["-ii", w.abs("_ii/blank line.txt")]
+                    feats.add("pattern_file_with_blank_only_line")
+                elif probe == "create_sf_v":
+                    sub = [x for x in files if w.under(x, T)]
+                    if not sub:
+                        continue
+                    target_file = sub[k % len(sub)]
+                    base += ["-v", "-sf", w.abs(target_file)]
+                    scope = {T} | {r for r in roots if w.under(r, T) and w.under(target_file, r)}
+                    feats.add("create_sf_verbose")
                 elif probe in ("create_i_path", "create_dr_i_path"):
                     # a pattern that names a nested history by its path from the invoked root: that history (and what lies
                     # below it) is out of scope, with rename detection on as well
